@@ -97,11 +97,15 @@ fn run_worker(cfg: &FanCfg, w: usize, deadline: Instant, stop: &std::sync::atomi
             tail
         });
         let mut last_mark: Option<(u64, u64)> = None;
+        let mut quiet_since = Instant::now();
+        let mut cpu_at_last_line = cpu_ticks(child.id());
         let mut done = false;
         let mut killed = None;
         loop {
-            match rx.recv_timeout(Duration::from_secs(cfg.hang_s.max(1))) {
+            match rx.recv_timeout(Duration::from_secs(1)) {
                 Ok(Some(l)) => {
+                    quiet_since = Instant::now();
+                    cpu_at_last_line = cpu_ticks(child.id());
                     if let Some(rest) = l.strip_prefix("M ") {
                         let mut it = rest.split_whitespace();
                         let r = it.next().and_then(|x| x.parse().ok()).unwrap_or(0);
@@ -135,7 +139,18 @@ fn run_worker(cfg: &FanCfg, w: usize, deadline: Instant, stop: &std::sync::atomi
                         let _ = child.kill();
                         break;
                     }
-                    // no output for hang_s seconds while inside an untrusted trial => hang
+                    // A hang is judged by the worker's own CPU time, not by the wall clock, so that a loaded
+                    // machine (other checks, compilers) cannot turn a slow trial into a "hang":
+                    //   busy hang   = hang_s seconds of CPU consumed without a line of output;
+                    //   blocked hang = no output for a long wall time while consuming (almost) no CPU.
+                    let hang_s = cfg.hang_s.max(1);
+                    let used = cpu_ticks(child.id()).saturating_sub(cpu_at_last_line);
+                    let quiet = quiet_since.elapsed().as_secs();
+                    let busy_hang = used >= hang_s * ticks_per_s();
+                    let blocked_hang = quiet >= (hang_s * 10).max(60) && used * 20 < quiet * ticks_per_s();
+                    if !(busy_hang || blocked_hang) {
+                        continue;
+                    }
                     killed = Some("hang");
                     let _ = child.kill();
                     break;
@@ -186,6 +201,20 @@ fn run_worker(cfg: &FanCfg, w: usize, deadline: Instant, stop: &std::sync::atomi
             return res;
         }
     }
+}
+
+/// utime + stime of a process in clock ticks (0 if it cannot be read, e.g. the process is gone)
+fn cpu_ticks(pid: u32) -> u64 {
+    let Ok(stat) = std::fs::read_to_string(format!("/proc/{pid}/stat")) else { return 0 };
+    // fields after the parenthesised command name: state is field 3, utime 14, stime 15
+    let Some(rest) = stat.rfind(')').map(|i| &stat[i + 1..]) else { return 0 };
+    let f: Vec<&str> = rest.split_whitespace().collect();
+    let get = |i: usize| f.get(i).and_then(|x| x.parse::<u64>().ok()).unwrap_or(0);
+    get(11) + get(12)
+}
+
+fn ticks_per_s() -> u64 {
+    100 // USER_HZ on Linux
 }
 
 pub fn fan_out(cfg: FanCfg) -> FanOut {
